@@ -821,6 +821,32 @@ theorem sync_converges_after_parent_side_revocation :
     (xRevoked.syncs 10 900 [[], []]).child.ca.classes = [] ∧
     xRevoked.syncs 10 900 [[], [], []] = xRevoked.syncs 10 900 [[], []] := by decide
 
+/-- Residual of F-C02-2: the operator removed the child at the parent and added it again while
+the child was in `RollOld` – the new child record knows none of its keys. -/
+def xReadded : Pair :=
+  ⟨Sys.run {} (pConvOps ++ [.childCertify 7 0 30 none 900, .childRemove 7, .childAdd 7 [1, 2]]),
+   xRevoked.child, 7, 9⟩
+
+/-- A key the parent has no record of is still refused (`KeyUseNoIssuedCert`): the child never
+leaves `RollOld` although the parent lists `{1,2}` for it.  Why `noParentSideRevocation` cannot be
+dropped altogether (it can be weakened to "in use or revoked").  Replayed on the real code:
+corpus/system-findings/c02-f2-child-readded-during-roll.ops. -/
+theorem sync_stuck_after_child_readded :
+    Reachable xReadded.parent ∧ Reachable xReadded.child ∧ xReadded.noParentSideRevocation = false ∧
+    xReadded.pendingAnswerable = true ∧
+    xReadded.parent.exec (.childRevokeKey 7 0 20) = .refused .noIssuedCert ∧
+    (xReadded.parent.ca.entitlementsFor 7 900).map (·.res) = [[1, 2]] ∧
+    ∀ fs, (xReadded.syncs 10 900 fs).converged 900 = false := by
+  refine ⟨reachable_run .init _, reachable_run .init _, by decide, by decide, by decide, by decide, ?_⟩
+  have hfix : ∀ f, xReadded.sync 10 900 f = xReadded := by
+    intro f
+    have hpend : xReadded.child.ca.hasPendingRequests xReadded.ph = true := by decide
+    unfold Pair.sync
+    simp only [hpend, if_true]
+    decide
+  intro fs
+  rw [syncs_of_fixed hfix fs]; decide
+
 /-- (B) The child issued a certificate with a request limit `{1,2}` to a child of its own
 (key 50); then the parent reduces the child's entitlement to `{1}`. -/
 def xLimit : Pair :=
